@@ -95,15 +95,17 @@ loop:
 			continue loop
 		}
 
-		// Try for a comment.
-		var comment string
-		comment, ok, err = jsComment.Parse(pi)
-		if err != nil {
-			return nil, false, err
-		}
-		if ok {
-			e.Contents = append(e.Contents, NewScriptContentsJS(comment))
-			continue loop
+		// Try for a comment, unless we're inside a string literal, where // and /* are ordinary characters.
+		if stringLiteralDelimiter == jsQuoteNone {
+			var comment string
+			comment, ok, err = jsComment.Parse(pi)
+			if err != nil {
+				return nil, false, err
+			}
+			if ok {
+				e.Contents = append(e.Contents, NewScriptContentsJS(comment))
+				continue loop
+			}
 		}
 
 		// Read JavaScript chracaters.
